@@ -6,7 +6,10 @@
 (* tag and binder into parts, the construction API and the sequence of     *)
 (* read sizes -- must be a prefix-consistent view of that one function,    *)
 (* produce exactly the requested number of bytes, and a derived seed must  *)
-(* equal the first bytes of the stream.                                    *)
+(* equal the first bytes of the stream.  Conversely the stream depends on  *)
+(* ALL of seed, tag and binder: two runs of one family whose (seed, tag,   *)
+(* binder) differ in any byte of any part never share their first 16 bytes *)
+(* (for a sound XOF this fails with probability 2^-128 per pair).          *)
 (***************************************************************************)
 EXTENDS Integers, Sequences, TLC, Json, IOUtils
 Rec == ndJsonDeserialize(IOEnv.TRACEFILE)
@@ -24,6 +27,8 @@ Next ==
          k == <<e.family, e.seed, e.dst, e.binder>>
      IN /\ Len(e.out) = (IF e.api = "into_seed" THEN e.seed_size ELSE SumSeq(e.reads))   \* exactly the bytes asked for
         /\ (k \in DOMAIN Stream => PrefixCompatible(Stream[k], e.out))                     \* one function per key
+        /\ (k \notin DOMAIN Stream /\ Len(e.out) >= 16 =>                                  \* ... that separates distinct keys
+              \A kk \in DOMAIN Stream : (kk[1] = e.family /\ Len(Stream[kk]) >= 16) => SubSeq(Stream[kk], 1, 16) # SubSeq(e.out, 1, 16))
         /\ Stream' = [kk \in DOMAIN Stream \cup {k} |->
                         IF kk = k /\ (k \notin DOMAIN Stream \/ Len(e.out) > Len(Stream[k])) THEN e.out ELSE Stream[kk]]
 Accepted ==
